@@ -24,7 +24,7 @@ PROPS = {
         "gen": ["EffectOrder", "SeqAccounting"],
     },
     "C02": {
-        "level_text": "Lean 4 theorems: (byte level) every append leaves the previous file content as an exact prefix and adds only whole newline-terminated frames — the lines of the new log are the old lines followed by exactly the appended frames; (static, regenerated on every run by the translator ripx) the truth file is only ever opened create+append and impl EventLog contains no truncating/seeking/renaming call; EventLog::append is lock / body / newline / flush / unlock; in the call graph of impl ContinuityStore none of the read-only capabilities (replay, cut points, compaction status, cursor status, selection status, list, get, subscribe, the compile-input loaders) can reach a function that appends to the event log, and no cache-layer file mentions the event log — decided by a reachability computation over the regenerated graph, for every argument value at once; (planner model of C09) auto and auto-schedule with nothing to do or as a dry run append nothing for every thread and parameter. Tied by an implementation oracle on bytes: operation histories over the store API and the HTTP router (valid, invalid, unknown-thread arguments; cache deletion; reopen), after every call the previous bytes (length + SHA-256) are a prefix, the suffix splits into JSON frames, read-only and no-op calls add nothing.",
+        "level_text": "Lean 4 theorems: (byte level) every append leaves the previous file content as an exact prefix and adds only whole newline-terminated frames — the lines of the new log are the old lines followed by exactly the appended frames; (static, regenerated on every run by the translator ripx) the truth file is only ever opened create+append and impl EventLog contains no truncating/seeking/renaming call; EventLog::append is lock / body / newline / flush / unlock; in the call graph of impl ContinuityStore none of the read-only capabilities (replay, cut points, compaction status, cursor status, selection status, list, get, subscribe, the compile-input loaders) can reach a function that appends to the event log, and no cache-layer file mentions the event log — decided by a reachability computation over the regenerated graph, for every argument value at once; (planner model of C09) auto and auto-schedule with nothing to do or as a dry run append nothing for every thread and parameter. Tied by an implementation oracle on bytes: operation histories over the store API and the HTTP router (valid, invalid, unknown-thread arguments, thread ids that as file names spell the store's own files; cache deletion; reopen; backlogs of cut points drained one checkpoint per call), whether a call is a no-op being decided from the log as it was before the call, after every call the previous bytes (length + SHA-256) are a prefix, the suffix splits into JSON frames, read-only and no-op calls add nothing.",
         "level_note": "Lean kernel; ripx is trusted to see every method call on self and every event_log.append in impl ContinuityStore (closures and nested blocks included; calls through trait objects or macros would be missed; none exist today); the OS honours O_APPEND; serde_json never emits a raw newline inside a frame (checked by the oracle on every appended line).",
         "technique": "Lean 4 proof (list lemmas on bytes; decide over regenerated call graph / open flags; planner model) + byte-level implementation oracle over operation histories",
         "design_ref": "§5 C02",
@@ -115,7 +115,7 @@ PROPS = {
         "gen": ["EffectOrder"],
     },
     "C08": {
-        "level_text": "Lean 4 theorems over an executable model of what compile_context_bundle_for_run computes from a thread's frames (cut point, recent messages with the reply of the run that answered each, summary checkpoints selected by halving, strategy, logged decision): for EVERY history — the selected messages are exactly the most recent ones in range (a suffix of the in-range messages, min(limit, available) of them, oldest first, all after the selected summary and at or before the cut); the cut point is the frame before the next message after the triggering message, or the head; the summary references are at most three cumulative checkpoints, ascending, halving, latest frame per to_seq, ending at the latest; the messages+runs projection and any suffix window holding enough (or all) in-range messages give the same bundle as the whole thread (which internal read path supplied the frames does not matter). Frames appended after a fixed cut point: the FULL statement is proved for the repaired semantics and proved FALSE of the code as it is (a checkpoint frame appended after the cut is eligible when its to_seq is at or before it; checked witness, recorded known finding), with the exact partial statement proved for the code as it is. Tied by correspondence on every run: thread histories written frame by frame into a real log (messages, runs with session streams, reply text and snapshots, cumulative and legacy checkpoints of any to_seq, side-effect / cursor / job frames), the real run-time compile entry point (cfg-exported) evaluated with no caches, rebuilt caches, random cache files removed, after later appends and under a racing writer, every result compared with the model on the truth frames and with each other. One defect found and repaired: without the full sidecar the cut point was taken from the messages+runs sidecar's last seq (fix: commit).",
+        "level_text": "Lean 4 theorems over an executable model of what compile_context_bundle_for_run computes from a thread's frames (cut point, recent messages with the reply of the run that answered each, summary checkpoints selected by halving, strategy, logged decision): for EVERY history — the selected messages are exactly the most recent ones in range (a suffix of the in-range messages, min(limit, available) of them, oldest first, all after the selected summary and at or before the cut); the cut point is the frame before the next message after the triggering message, or the head; the summary references are at most three cumulative checkpoints, ascending, halving, latest frame per to_seq, ending at the latest; the messages+runs projection and any suffix window holding enough (or all) in-range messages give the same bundle as the whole thread (which internal read path supplied the frames does not matter). Frames appended after a fixed cut point: the FULL statement is proved for the repaired semantics and proved FALSE of the code as it is (a checkpoint frame appended after the cut is eligible when its to_seq is at or before it; checked witness, recorded known finding), with the exact partial statement proved for the code as it is. Tied by correspondence on every run: thread histories written frame by frame into a real log (messages, runs with session streams, reply text and snapshots, cumulative and legacy checkpoints of any to_seq, side-effect / cursor / job frames), the real run-time compile entry point (cfg-exported) evaluated with no caches, rebuilt caches, random cache files removed, the messages+runs sidecar damaged at its end, the checkpoint sidecar and index overwritten, after later appends, under a racing writer and while another frame's append is in flight (writer parked between body and newline; body cut at a random byte), every result compared with the model on the truth frames and with each other; threads of up to 700 frames with UUID-shaped ids so that every internal read path is taken — the evidence counts, per run, how many compile inputs came from the tail scan, the windowed reads (within / across a seek-index stride) and full replay. Defects found and repaired: without the full sidecar the cut point was taken from the messages+runs sidecar's last seq; a reader racing an append made EventLog::replay fail and the bundle lose its reply texts (a frame whose append is in flight is invisible: theorem inflight_frame_invisible).",
         "level_note": "Lean kernel; ids, contents and texts are numbers in the model; reply aggregation (snapshot, else session replay) is an oracle function of the model — a stale-but-well-formed snapshot is a cache fault covered under C04; bundle serialisation, artifact writing and the provider item rendering are glue covered only by the correspondence run; the tail-window byte budgets are not in this model (C04).",
         "technique": "Lean 4 proof (list lemmas: suffix/prefix independence, halving hierarchy; decide-checked counterexample) + differential correspondence with the real compile entry point across cache states, later appends and a racing writer",
         "design_ref": "§5 C08",
@@ -130,7 +130,7 @@ PROPS = {
         "gen": [],
     },
     "C09": {
-        "level_text": "Lean 4 theorems over an executable model of cut points, planning, the auto job and the scheduler decision as functions of the thread's truth frames: cut points are exactly the k*stride-th messages (seq and id of that message), the latest multiples first, at most clamp(limit,1,32); a cut point is checkpointed exactly when a checkpoint frame for that seq exists, the latest by stream order winning; non-message frames do not move cut points; the plan is the unchecked cut points among the latest 32, capped; an auto run creates precisely the planned checkpoints in sorted order between exactly one job-spawned and one job-ended frame, continuing the numbering; with nothing to do or as a dry run it appends nothing; after a run every planned cut is checkpointed; scheduler: silent on noop/dry run, one decision frame when a job is in flight, job-spawned then decision otherwise. Tied to the code by differential correspondence: random histories (messages interleaved with other frames, manual checkpoints on and off boundaries, jobs left in flight) x operation sequences with stride / limit / max_new in {None,0,1,2,3,7,32,33,10000} and all boolean flags, responses (message count, every cut point field, planned list, decision/status) and the kinds/seqs/to_seq of appended frames compared with the compiled model; plus oracles: summaries readable with matching coverage, manual checkpoints only on message boundaries, and the same job on two byte-copies of a store writes the same summary text.",
+        "level_text": "Lean 4 theorems over an executable model of cut points, planning, the auto job and the scheduler decision as functions of the thread's truth frames: cut points are exactly the k*stride-th messages (seq and id of that message), the latest multiples first, at most clamp(limit,1,32); a cut point is checkpointed exactly when a checkpoint frame for that seq exists, the latest by stream order winning; non-message frames do not move cut points; the plan is the unchecked cut points among the latest 32, capped; an auto run creates precisely the planned checkpoints in sorted order between exactly one job-spawned and one job-ended frame, continuing the numbering; with nothing to do or as a dry run it appends nothing; after a run every planned cut is checkpointed; scheduler: silent on noop/dry run, one decision frame when a job is in flight, job-spawned then decision otherwise. Tied to the code by differential correspondence: random histories (messages interleaved with other frames, manual checkpoints on and off boundaries, jobs left in flight) x operation sequences with stride / limit / max_new in {None,0,1,2,3,7,32,33,10000} and all boolean flags, responses (message count, every cut point field, planned list, decision/status) and the kinds/seqs/to_seq of appended frames compared with the compiled model; plus model-free oracles: a cut point is reported checkpointed exactly when a checkpoint frame for that seq exists (latest wins); with every cut point checkpointed a repeated run appends nothing; summaries readable with matching coverage (also for a summary handed in to a manual checkpoint); a summarizer job that fails midway (unwritable artifact store) is bracketed by one spawned and one ended frame and no checkpoint references a summary that was never stored; manual checkpoints only on message boundaries; the same job on two byte-copies of a store writes the same summary text.",
         "level_note": "Lean kernel; the summary renderer is treated as a deterministic function and checked by the two-copies oracle (artifact ids minted during a run are canonicalised by position); the in-flight scan is modelled over the whole thread (the code scans a 512-frame tail; histories stay below it); cache fast paths inside cut_points are the subject of C04.",
         "technique": "Lean 4 proof (arithmetic on ordinals, fold invariants, sort/permutation lemmas) + differential correspondence check",
         "design_ref": "§5 C09",
@@ -144,7 +144,7 @@ PROPS = {
         "gen": [],
     },
     "C10": {
-        "level_text": "Lean 4 theorems over an executable model of the cut resolution shared by branch and handoff and of their effect on the truth log: the recorded cut lies within the source thread as it was; from_seq names the last message at or before it; no selector means the head and the last message; from_message_id names the requested message and covers every run-spawned / run-ended frame that refers to it; both selectors / out of range / unknown id / id of a non-message frame / unknown thread are refused; on success exactly two frames are appended, none on the source (or any other existing) thread, the new thread is [creation@0, lineage@1]; a successful handoff always carries a resolvable summary. Tied to the code by differential correspondence: random source histories x every selector shape x {branch, handoff with markdown / existing / missing / malformed artifact id / neither} through the real ContinuityStore, result and error class compared with the compiled model; plus implementation oracles on the log bytes (previous content is a prefix; source thread frames unchanged; child prefix; recorded artifact exists; a failed call appends nothing).",
+        "level_text": "Lean 4 theorems over an executable model of the cut resolution shared by branch and handoff and of their effect on the truth log: the recorded cut lies within the source thread as it was; from_seq names the last message at or before it; no selector means the head and the last message; from_message_id names the requested message and covers every run-spawned / run-ended frame that refers to it; both selectors / out of range / unknown id / id of a non-message frame / unknown thread are refused; on success exactly two frames are appended, none on the source (or any other existing) thread, the new thread is [creation@0, lineage@1]; a successful handoff always carries a resolvable summary. Tied to the code by differential correspondence: random source histories x every selector shape x {branch, handoff with markdown / existing / missing / malformed artifact id / neither} through the real ContinuityStore — one case in three through the HTTP layer (payload parsing, defaults, status mapping: the model's error class decides the expected status) —, result and error class compared with the compiled model; plus implementation oracles on the log bytes (previous content is a prefix; source thread frames unchanged; child prefix; recorded artifact exists; a cut requested by message id is not before the end of a run that answered it, also with overlapping turns; a failed call appends nothing).",
         "level_note": "Lean kernel; the artifact store is an abstract predicate (existence of a blob); UUIDs canonicalised by first occurrence; the creation race (a client addressing the child between its creation frame and its lineage frame) is the subject of C01, not of this sequential model.",
         "technique": "Lean 4 proof (decision logic stated outright; list induction) + differential correspondence check",
         "design_ref": "§5 C10",
@@ -295,7 +295,7 @@ PROPS = {
         "gen": ["SecretReaders"],
     },
     "C20": {
-        "level_text": "Lean 4 theorems over an executable model of FrameStore and the TuiState::update fold: frame/output/preview bounds for every frame sequence and capacity, truncation cut on a char boundary, lookup-by-seq sound for every store state and complete on consecutive stores; the model is tied to the code by a differential correspondence run (same frame sequences through rip-tui and the compiled model) plus implementation oracles.",
+        "level_text": "Lean 4 theorems over an executable model of FrameStore and the TuiState::update fold: frame/output/preview bounds for every frame sequence and capacity, truncation cut on a char boundary, lookup-by-seq sound for every store state and complete on consecutive stores; the model is tied to the code by a differential correspondence run (same frame sequences through rip-tui and the compiled model) plus implementation oracles (bounds, determinism, lookup exactness). The drawn surface has no model: every tenth case is rendered off-screen (rip_tui::render on ratatui's TestBackend; 6 view variants x 4 terminal sizes x 2 modes, drawn twice) and must neither panic at 20x6 or larger nor differ between the two draws.",
         "level_note": "Lean kernel; axioms propext/Quot.sound only; model written by hand and validated by the correspondence check; BTreeMap/VecDeque/String modelled as lists; artifact-id extraction, job/context summaries and rendering not modelled.",
         "technique": "Lean 4 proof (invariant over the fold) + differential correspondence check",
         "design_ref": "§5 C20",
